@@ -85,6 +85,41 @@ def behaviours_to_scenarios(lines, seed, limit):
         scs.append({"name": f"tlc-{seed}-{n}", "cfg": {}, "steps": steps, "complete": True, "mode": "seq"})
     return scs, len(hists)
 
+def fine_behaviours_to_scenarios(lines, seed, limit):
+    """Behaviours of LockEngineFine (one step = one critical section of one actor) -> engine C `fine` steps."""
+    hs = set()
+    for ln in lines:
+        ln = ln.strip()
+        if ln.startswith('"BEHAVIOUR '):
+            try:
+                hs.add(json.loads(ln)[10:])
+            except Exception:
+                pass
+    hists = [json.loads(h) for h in sorted(hs)]
+    rng = random.Random(seed)
+    rng.shuffle(hists)
+    scs = []
+    for n, h in enumerate(hists[:limit]):
+        actors, script = {}, []
+        for st in h:
+            a = st.get("actor", "")
+            if st["op"] == "lock":
+                fl, tf = FLAGMAP[st["fl"]]
+                actors[a] = {"op": "lock", "conn": 1 + int(a[1:]) % 4, "db": 0, "key": st["key"], "lid": st["lid"], "flag": fl, "tf": tf, "ef": 0,
+                             "to": st["to"], "ex": st["ex"], "cnt": st["cnt"], "rc": st["rc"], "nodup": True}
+                script.append(a)
+            elif st["op"] == "unlock":
+                actors[a] = {"op": "unlock", "conn": 1 + int(a[1:]) % 4, "db": 0, "key": st["key"], "lid": st["lid"], "flag": UFLAGMAP[st["fl"]],
+                             "tf": 0, "ef": 0, "to": 0, "ex": 0, "cnt": 0, "rc": st["rc"]}
+                script.append(a)
+            elif st["op"] == "tick":
+                script.append("clock")
+            else:
+                script.append(a)
+        steps = [{"op": "fine", "actors": actors, "script": script}, {"op": "drain", "n": 10}]
+        scs.append({"name": f"fine-{seed}-{n}", "cfg": {}, "steps": steps, "complete": True})
+    return scs, len(hists)
+
 def directed_scenarios():
     path = os.path.join(VERIF, "scenarios", "lock_directed.json")
     with open(path) as fh:
@@ -223,6 +258,16 @@ def run(prop, tier, seed):
         # (3b) engine C: gated concurrent schedules (client requests racing each other and the sweepers)
         nc = 200 if quick else 4000
         conc = [gen_conc.gen_conc(seed, i) for i in range(nc)]
+        # schedules generated by TLC from the fine-atomicity spec (one step = one critical section)
+        with open(os.path.join(VERIF, "spec", "sim", "LockEngineFine_sim.cfg")) as fh:
+            fsimcfg = fh.read()
+        nfb = 150 if quick else 2500
+        rf = vtlc.run_tlc(os.path.join(VERIF, "spec"), "LockEngineFineSim", fsimcfg, os.path.join(wd, "fsim"), workers=1, timeout=600,
+                          simulate=f"num={nfb}", depth=90, seed=seed)
+        fine, nfine = fine_behaviours_to_scenarios(rf["out"].splitlines(), seed, nfb)
+        if len(fine) < 10:
+            raise InfraError("fine-atomicity behaviour generation produced too few behaviours:\n" + rf["out"][-1500:])
+        conc += fine
         with open(os.path.join(VERIF, "scenarios", "conc_directed.json")) as fh:
             conc += json.load(fh)
         resc = engine.run_harness(binp, "TestVerifC", conc, os.path.join(wd, "runc"), tag="c")
@@ -262,7 +307,7 @@ def run(prop, tier, seed):
                       "wall_s": round(mc_wall, 1)},
             "timer_wheel_model": wheel,
             "tlc_behaviours_replayed": len(beh), "tlc_behaviour_prefixes_printed": nprinted,
-            "gated_concurrent_histories": len(conc), "realtime_ms_histories": len(rt), "random_histories": len(rnd), "big_histories": len(big), "directed_histories": len(direct),
+            "gated_concurrent_histories": len(conc), "tlc_fine_schedules_replayed": len(fine), "realtime_ms_histories": len(rt), "random_histories": len(rnd), "big_histories": len(big), "directed_histories": len(direct),
             "monitor": {"module": "spec/mon/MonLock.tla", "events": mst["events"], "monitor_states": mst["monitor_states"], "clauses_of": prop},
             "selftest": stest,
             "evaluations": len(scs), "distinct_nontrivial": len({json.dumps(s["steps"], sort_keys=True) for s in scs}),
